@@ -67,7 +67,9 @@ fn joint_name(naming: u8, n: usize, explicit: bool) -> String {
     if explicit {
         return ["shoulder_pan", "arm-lift", "ELBOW", "wrist.roll", "wrist_pitch", "tool_flange_rot"][n - 1].to_string();
     }
-    match naming % 7 {
+    match naming % 9 {
+        7 => format!("${{joint_prefix}}joint_{}", n),       // the macro parameter's own name contains "joint"
+        8 => format!("${{prefix}}joint_{}${{suffix}}", n), // a macro after the number as well
         0 => format!("joint_{}", n),
         1 => format!("${{prefix}}joint_{}", n),
         2 => format!("left_arm_joint_{}", n),
@@ -198,7 +200,7 @@ fn spec_strategy() -> BoxedStrategy<UrdfSpec> {
         (length_strategy(false), length_strategy(false), length_strategy(false), length_strategy(true), length_strategy(true), length_strategy(true), length_strategy(true)),
         0u8..64,
         prop_oneof![5 => prop::array::uniform6(limit), 1 => Just([None; 6])],
-        (0u8..32, any::<u16>(), 0u8..7, 0u8..4, 0u8..16, prop_oneof![4 => Just(false), 1 => Just(true)]),
+        (0u8..32, any::<u16>(), 0u8..9, 0u8..4, 0u8..16, prop_oneof![4 => Just(false), 1 => Just(true)]),
     )
         .prop_map(|((a1, a2, b, c1, c2, c3, c4), bits, limits, (layout, order, naming, nesting, extras, explicit_names))| {
             let mut signs = [1i8; 6];
@@ -257,7 +259,7 @@ impl Property for C20 {
     }
     fn rule(&self) -> String {
         "documents rendered from OPW values (mm grid, arbitrary reals, zeros for a1/a2/b) in the supported layouts (c2 along z or x, b as y on joint 3, c3 on joint 5 or with a2 on joint 4 as x or y, c4 along x or z) x axis signs (axis omitted for +1) \
-         x limit syntax (radians, ${radians(deg)} integer/decimal, none) x all joint declaration orders x nesting depth 0..3 (xacro:macro / group / xacro:if) x naming decorations (${prefix}, alphabetic prefix+_, upper case, joint_aN, trailing punctuation) \
+         x limit syntax (radians, ${radians(deg)} integer/decimal, none) x all joint declaration orders x nesting depth 0..3 (xacro:macro / group / xacro:if) x naming decorations (${prefix}, ${joint_prefix}, ${prefix}..${suffix}, alphabetic prefix+_, upper case, joint_aN, trailing punctuation) \
          x unrelated fixed joints / links with visual origins / a second identical copy x explicit joint-name lists with arbitrary names; negative space: a missing joint, a conflicting duplicate (differing in origin, in axis direction only or in limits only), truncated XML, non-numeric origin; byte/token-level mutants and arbitrary bytes (plus the libFuzzer target urdf_bytes in the thorough tier). \
          Non-trivial: a valid document with a permuted order, a non-default layout or a decoration; every negative / mutated document."
             .into()
@@ -334,7 +336,7 @@ impl Property for C20 {
                     ctx.class("valid:non-default-layout");
                     nontriv = true;
                 }
-                if u.naming % 7 != 0 || u.explicit_names {
+                if u.naming % 9 != 0 || u.explicit_names {
                     ctx.class(if u.explicit_names { "valid:explicit-names" } else { "valid:decorated-names" });
                     nontriv = true;
                 }
